@@ -358,7 +358,7 @@ fn first_snap_diff(a: &Snap, b: &Snap) -> Option<(&'static str, String)> {
     if a.faults != b.faults {
         return Some(("fault-evidence", format!("fault counts {:?} vs {:?}", a.faults, b.faults)));
     }
-    if a.digest != b.digest {
+    if a.digest != 0 && b.digest != 0 && a.digest != b.digest {
         return Some(("runtime-digest", "generation-masked digest of runtime+provenance differs although every projected field agrees".to_owned()));
     }
     None
@@ -1115,8 +1115,9 @@ fn phase2_shard(args: &Args, rep: &mut Report, sh: &P2Shard, budget: &Budget) {
     let mut nontrivial = 0u64;
     let mut complete = true;
     for seq in &seqs {
-        // n ≤ 2 is always completed, whatever the machine load.
-        if sh.n > 2 && budget.expired() {
+        // A small core is always completed, whatever the machine load.
+        let core = sh.n == 1 || (sh.n == 2 && sh.mults.iter().sum::<usize>() <= 3);
+        if !core && budget.expired() {
             complete = false;
             break;
         }
@@ -1213,7 +1214,7 @@ fn phase2_shard(args: &Args, rep: &mut Report, sh: &P2Shard, budget: &Budget) {
             intents: intents.clone(),
             script: script_v,
         };
-        let tv = run_script(&scn_v, &flags, Level::Full);
+        let tv = run_script(&scn_v, &flags, if done % 8 == 0 { Level::Full } else { Level::Light });
         done += 1;
         let bad = compare(scn_c, tc, &scn_v, &tv).or_else(|| single_run_checks(&scn_v, &tv));
         if let Some((sig, what)) = bad {
